@@ -20,7 +20,8 @@ POOL = ["http://example.com", "http://example.com/", "http://u:p@example.com:808
         "https://[::1]:8443/p/q.tar.gz?a=1", "http://example.com:80/x", "/a/b", "a/b", "", "?q=1", "mailto:user@example.com",
         "http://bücher.example/straße", "http://[fe80::1%25eth0]:80/", "http://example.com/a;p=1/b;q", "HTTP://EXAMPLE.com/%7efoo",
         "http://example.com/?a=1&b=2&a=3#f", "http://h/a/../b/./c", "//example.com/a", "http://1.2.3.4:0/", "http://Ab_c.é.com/x",
-        "http://example.com:443/x", "https://example.com:80/", "ws://u@example.com:443", "ftp://example.com:80/a"]
+        "http://example.com:443/x", "https://example.com:80/", "ws://u@example.com:443", "ftp://example.com:80/a",
+        "http://h/a%2Fb", "http://h/a%25b/c%2Fd?x=0.0", "http://example.com.:8080/p"]
 READ_FIELDS = [f for f in ALL_FIELDS if f not in ("val",)]
 # raw components that end in a truncated escape run / begin with a continuation byte / contain malformed escapes: reading one
 # right after another must not carry decoder state over (process-global quoter and unquoter objects are shared)
@@ -87,7 +88,7 @@ def gen_history(rnd, nsteps):
         elif r < 0.2:
             steps.append({"k": "build", "st": progs.rnd_build(rnd)})
         elif r < 0.45:
-            steps.append({"k": "modify", "slot": rnd.randrange(1000), "st": progs.rnd_step(rnd, MOD_OPS), "ref": rnd.randrange(1000),
+            steps.append({"k": "modify", "slot": rnd.randrange(1000), "st": progs.rnd_step(rnd, MOD_OPS, typed=True), "ref": rnd.randrange(1000),
                           "read_before": rnd.random() < 0.6, "read_after": rnd.random() < 0.7})
         elif r < 0.5:
             # the same modifier on two URLs that compare EQUAL but are distinguishable ('' vs '/' path under an authority)
